@@ -10,8 +10,16 @@ from lib import vlib
 
 
 def run():
-    ctx = vlib.Ctx("SETUP", "quick", 1)
+    import shutil
     rc = 0
+    for tool in ("java", "go", "git"):
+        if not shutil.which(tool):
+            print("missing tool: " + tool)
+            rc = 1
+    if not os.path.exists(vlib.TLA_JAR):
+        print("missing " + vlib.TLA_JAR)
+        rc = 1
+    ctx = vlib.Ctx("SETUP", "quick", 1)
     try:
         mods = sorted(os.path.basename(p)[:-4] for p in glob.glob(os.path.join(ctx.specdir, "*.tla")))
         bad = []
@@ -21,8 +29,8 @@ def run():
                 bad.append(m)
                 print(out[-2000:])
         print("SANY: %d modules parsed, %d failed %s" % (len(mods), len(bad), bad))
-        if bad:
-            rc = 1
+        # a module that does not parse makes the checks using it inconclusive (exit 2) on their own;
+        # setup only warns, it fails for missing infrastructure only
         ctx.cleanup()
         props = sorted({m.group(0).upper() for root, _d, files in os.walk(vlib.HARNESS) for f in files
                         for m in [__import__("re").match(r"^c\d\d", f)] if m})
@@ -37,8 +45,8 @@ def run():
                 r, out = c.go_build_all(sorted(pkgs))
                 print("go harness build %s: rc=%d (%d packages)" % (pid, r, len(pkgs)))
                 if r != 0:
-                    print(out[-4000:])
-                    rc = 1
+                    print("WARNING: harness of %s does not build (its check will be inconclusive):" % pid)
+                    print(out[-3000:])
             finally:
                 c.cleanup()
     finally:
